@@ -24,6 +24,12 @@
 //	     tcp4:/tcp6: = the scope of the face is whatever the REAL unicast TCP transport, constructed
 //	     for that remote address by face.MakeUnicastTCPTransport (no socket is opened), says; in ls
 //	     mode that transport object is also the transport of the ingress link service
+//	faces2 <K>                                               => ok | clash rounds=<n> accepted=<m>
+//	     K rounds: a Local and a NonLocal real link service (in-memory transports) are registered
+//	     CONCURRENTLY through the real face table (face.FaceTable.Add, goroutines released together).
+//	     Each must get its own id, and dispatch.GetFace(id) - where the forwarder looks up the scope of
+//	     an arrival - must be that very face. In a round where this fails ("clash") a /localhost
+//	     Interest is injected into the NON-local one: accepted = it was not rejected (PIT grew).
 //	scope <tcp4|tcp6|tcpa|udp4|udp6|unix> <ADDR>             => L | N | U | err
 //	     scope classification by the real transport constructors: tcp4/tcp6 MakeUnicastTCPTransport;
 //	     tcpa AcceptUnicastTCPTransport over a real loopback connection; udp4/udp6
@@ -529,6 +535,85 @@ func classify(kind, addr string) string {
 	return "bad-op"
 }
 
+var idsBurnt bool
+
+// burnFaceIDs advances the real face table's id counter beyond the ids of the fake faces (11, 12, ...)
+// so that faces registered through FaceTable.Add never replace one of them in dispatch.FaceDispatch.
+func burnFaceIDs() {
+	if idsBurnt {
+		return
+	}
+	idsBurnt = true
+	for {
+		l := face.MakeNDNLPLinkService(face.VerifNewTransport(8800, defn.Local), face.MakeNDNLPLinkServiceOptions())
+		face.FaceTable.Add(l)
+		id := l.FaceID()
+		face.FaceTable.Remove(id)
+		if id >= 4096 {
+			return
+		}
+	}
+}
+
+// concurrentFaces: see "faces2" in the protocol description.
+func concurrentFaces(k int) string {
+	clash, accepted := 0, 0
+	for r := 0; r < k; r++ {
+		ls := [2]*face.NDNLPLinkService{
+			face.MakeNDNLPLinkService(face.VerifNewTransport(8800, defn.Local), face.MakeNDNLPLinkServiceOptions()),
+			face.MakeNDNLPLinkService(face.VerifNewTransport(8800, defn.NonLocal), face.MakeNDNLPLinkServiceOptions()),
+		}
+		start := make(chan struct{})
+		var wg sync.WaitGroup
+		for j := 0; j < 2; j++ {
+			wg.Add(1)
+			go func(l *face.NDNLPLinkService) {
+				defer wg.Done()
+				<-start
+				face.FaceTable.Add(l)
+			}(ls[j])
+		}
+		close(start)
+		wg.Wait()
+		bad := ls[0].FaceID() == ls[1].FaceID()
+		for j := 0; j < 2; j++ {
+			g := dispatch.GetFace(ls[j].FaceID())
+			if g == nil || g.Scope() != ls[j].Scope() {
+				bad = true
+			}
+		}
+		if bad {
+			clash++
+			if th != nil {
+				// what the property is about: is a /localhost Interest from the non-local face rejected?
+				before := 0
+				for _, t := range threads {
+					before += t.GetNumPitEntries()
+				}
+				n, _ := enc.NameFromStr("/localhost/verif-probe")
+				ei, err := spec.Spec{}.MakeInterest(n, &ndn.InterestConfig{Nonce: utils.IdPtr(uint64(77))}, nil, nil)
+				if err == nil {
+					face.VerifHandleIncomingFrame(ls[1], ei.Wire.Join())
+					synctest.Wait()
+					after := 0
+					for _, t := range threads {
+						after += t.GetNumPitEntries()
+					}
+					if after != before {
+						accepted++
+					}
+				}
+			}
+		}
+		face.FaceTable.Remove(ls[0].FaceID())
+		face.FaceTable.Remove(ls[1].FaceID())
+	}
+	if clash == 0 {
+		return "ok"
+	}
+	return fmt.Sprintf("clash rounds=%d accepted=%d", clash, accepted)
+}
+
 // Exec runs one operation against the real code.
 func Exec(op string) string {
 	f := common.Fields(op)
@@ -540,6 +625,9 @@ func Exec(op string) string {
 	}
 	if f[0] == "scope" && len(f) == 3 {
 		return classify(f[1], f[2])
+	}
+	if f[0] == "faces2" && len(f) == 2 {
+		return concurrentFaces(common.Atoi(f[1]))
 	}
 	if th == nil {
 		return "skip"
@@ -664,6 +752,7 @@ func Main(t *testing.T, gen func(g *common.Gen)) {
 	}
 	w := bufio.NewWriterSize(out, 1<<16)
 	synctest.Test(t, func(t *testing.T) {
+		burnFaceIDs()
 		sc := bufio.NewScanner(in)
 		sc.Buffer(make([]byte, 1<<20), 1<<28)
 		for sc.Scan() {
